@@ -40,6 +40,13 @@ def _canon1(d):
                     return IDX(S)
                 if n[1] in ('1', 1):
                     return ('index', S, IDX(S))
+        if n[0] == 'index' and len(n) == 3 and isinstance(n[1], tuple) and n[1] and n[1][0] == 'call' and n[1][1] == 'slice::windows' and len(n[1]) == 4 and n[1][3] == ('const', 2):
+            # window k of S.windows(2) is [S[k], S[k+1]]
+            S = canon(n[1][2])
+            I = canon(n[2])
+            return ('agg', 'array', ('0', ('index', S, I)), ('1', ('index', S, ('add', ('const', 1), I))))
+        if n[0] == 'len' and len(n) == 2 and isinstance(n[1], tuple) and n[1] and n[1][0] == 'call' and n[1][1] == 'slice::windows' and len(n[1]) == 4 and n[1][3] == ('const', 2):
+            return ('sub', ('len', canon(n[1][2])), ('const', 1))
         if n[0] == 'index' and len(n) == 3 and isinstance(n[1], tuple) and n[1] and n[1][0] == 'call' and n[1][1] == 'Iterator::zip' and len(n[1]) == 4:
             # element k of zip(A, B) is (A[k], B[k])
             I = canon(n[2])
@@ -152,7 +159,12 @@ def _chain(facts, d):
                     for _, v in r[2:]:
                         nxt.append((canon(v), conds))
                 else:
-                    return None
+                    # an iterable computed per item: every element of it, in order
+                    o = _option_value(facts, r)
+                    if o is not None:
+                        nxt.append((canon(o[0]), conds + o[1]))
+                    else:
+                        nxt.append((('index', r, IDX(r)), conds))
         if nm in ('Iterator::filter', 'Iterator::filter_map', 'Iterator::flat_map'):
             positional = False
         outs = nxt
@@ -205,6 +217,8 @@ def comprehensions(cx, b, d):
             conds = []
             if site_bb is not None:
                 for a, p in cx.guards(b, site_bb):
+                    if a[0] == 'is' and isinstance(a[1], tuple) and a[1] and a[1][0] == 'call' and str(a[1][1]).endswith('::next'):
+                        continue        # "the iterator produced an element": part of the iteration, not a filter
                     ca = canon(a)
                     if find('(itervar _)', ca) is not None:
                         conds.append((ca, p))
